@@ -53,16 +53,20 @@ prop("C01", "c01",
 prop("C02", "c02",
      "cases = generated plans from dependency-heavy profiles (chains, fans, duplicate names, names from before a barrier, resource-less systems); layout oracle on every plan (dependency strictly earlier in stage or earlier in the same group); "
      "every 4th plan executed with one dependency source parked inside run() (hold driver) until everything the recovered layout lets finish has finished plus a grace period; verdict by the event-log oracle over the transitive dependency relation of the plan. "
+     "Plans also come from the wide-stage profile (258..700 registrations most of which touch nothing: one stage of more than 256 groups, then late-comers whose only conflict or dependency is with a far group), range over up to 320 distinct resources (8 types x 40 dynamic ids) with access lists of up to 70 entries, and contain barriers placed after exactly 255..257 / 511..513 registrations. "
+     "Every 13th plan is a wide-stage plan (258..700 mostly resource-less systems, 3..12% of them depending on a recent name): dependencies on systems that sit in groups 256+ of one stage. One shard (quick) / four shards (thorough) also build a plan of 2^16+ stages (every filler followed by a barrier) whose last five systems depend on one another: dependants strictly later. "
      "distinct non-trivial = (plan hash, driver) with >=1 dependency edge and either a completed hold or >=1 dependency pair checked in the log.")
 
 prop("C03", "c03",
      "cases = generated plans from barrier-heavy profiles (leading, trailing, repeated barriers, unrelated systems on both sides, barriers inside batches); layout oracle: max stage before an effective barrier < min stage after it; "
      "every 4th plan executed with a pre-barrier system parked inside run(); event-log oracle orders every pre/post pair and thread-local systems after everything. "
+     "A sixth of the plans are long registration sequences (200..700 systems) whose barriers come after exactly 255..257 / 511..513 registrations; runs of 255..257 / 511..513 / 767..769 / 65535..65537 consecutive add_barrier calls occur in every profile; the 2^16+-stage plan of C02 is checked for its barriers too. "
      "distinct non-trivial = (plan,layout) in which an effective barrier separates >=1 pair that has neither a conflict nor a dependency.")
 
 prop("C07", "c07",
      "cases = generated plans with batches nested 1..3 deep, controllers with empty/read/write/mixed declared data (real library SystemData types), k = 0..3 inner dispatches, HCtl and MultiDispatcher controllers; "
      "layout oracle with the harness's own union of controller data and everything inside; event-log oracle on the batch window against outer systems and C01/C02/C03/C04 oracles re-applied per inner dispatch epoch. "
+     "A sixth of the plans use long access lists: systems, controllers and batches with dozens of the 320 resources each, so that the combined list of one group runs to 32..100+ entries. "
      "distinct non-trivial = (plan,layout) with a batch whose inner systems add access beyond the controller's, beside >=1 other outer unit.",
      thorough=[shards(name="main"), miri(rayon=True, name="miri", args=["--tiny"], scale=0.00016)])
 
@@ -73,12 +77,14 @@ prop("C10", "c10",
 prop("C12", "c12",
      "cases = generated plans with 1..6 thread-local systems mixed with ordinary systems, barriers and batches (also builders with thread-local systems passed to add_batch); executed every 4th via dispatch / seq+thread_local / async wait under jitter, hold of an ordinary system or forced overlap; "
      "oracle: thread id == caller's, start after every ordinary system's end, registration order, one at a time; layout oracle: thread-local list == registration order. "
+     "Two hand-made scenarios every 40th case each: (a) a whole dispatcher with thread-local systems of its own registered as a thread-local system of another dispatcher (nested up to two deep; dispatch / dispatch_seq+dispatch_thread_local / RunNow::run_now): the flattened registration order on the calling thread, once per dispatch; (b) async: a thread-local system panics inside wait() (caught), then wait() again with or without a new dispatch(): every thread-local system runs, from the first one. "
      "distinct non-trivial = (plan hash, driver) with >=1 thread-local window observed beside >=1 ordinary system.")
 
 prop("C04", "c04",
      "cases = generated plans (1..600 systems, funnels that fill groups, dozens to hundreds of stages, batches nested with k=0..3 inner dispatches incl. MultiDispatcher, thread-local systems) x pool 1..16 x a random sequence (length 1..12) of dispatch / dispatch_par / dispatch_seq / dispatch_seq+dispatch_thread_local / dispatch_thread_local calls; "
      "after every call the per-system run counters are compared with a reference count model (batch members multiply by the controller's k along the nesting); a third of the calls on small plans are monitored and the event log is checked (no re-entry, epochs do not overtake, nothing outside the call); the layout must hold every registered system exactly once; SendDispatcher after try_into_sendable likewise. "
      "Call sequences also contain RunNow::run_now and, now and then, a call in which a system panics (caught; counts are re-baselined and every later call is exact again); every 5th case drives the async dispatcher (dispatch requests spaced arbitrarily, wait / wait_without_tl / world / running) under the same count model. "
+     "Long histories: on every shard two dispatchers see 2^16+2..40 calls in a row with the count model checked after every single call, and four MultiDispatcher batches whose plan() asks for 255..257 / 65535..65537 rounds are dispatched (sub-systems run exactly that many times). "
      "distinct non-trivial = (layout hash, call-sequence hash) with >=2 stages or a batch, and a sequence of >=2 calls.")
 
 prop("C19", "c19",
@@ -111,6 +117,7 @@ prop("C05", "c05",
      "Every 6th case uses the async dispatcher as the parallel twin (dispatch, optional running()/while running(){}/world()/wait_without_tl(), wait). "
      "The --exhaustive leg enumerates *every* linear extension of the fetch/body/release steps of one small stage (2x1, 3x1, 2+1 systems in quick; up to 4x1, 2x2, 3+1 in thorough) by token passing. "
      "The xcfg leg runs the same cases in a build of the crate *without* the `parallel` feature (dispatch is then sequential by construction) and compares the final digests with the parallel twin's. "
+     "Every 13th case is a wide-stage plan (258..340 systems in a stage of more than 256 groups). "
      "distinct non-trivial = (layout hash, overlap/script evidence) where the parallel twin followed a script exactly or >=1 overlap of unordered systems was observed in its log, and some slot has >=2 writers.",
      quick=[shards(name="main"), shards(name="exhaustive", args=["--exhaustive"]), {"kind": "xcfg", "name": "xcfg", "what": "final world+state digest", "builds": ["nopar"]}],
      thorough=[shards(name="main"), shards(name="exhaustive", args=["--exhaustive"]), {"kind": "xcfg", "name": "xcfg", "what": "final world+state digest", "builds": ["nopar"]}, san("tsan", name="tsan", scale=0.25)])
@@ -118,6 +125,7 @@ prop("C05", "c05",
 prop("C11", "c11",
      "cases = (stage width w in 2..16, pool size w or 16, context in {user pool, default pool, inside a batch (HCtl or MultiDispatcher), async dispatcher}, with/without a preceding stage) x 30 (quick) / 100 (thorough) dispatches: the heads of all w groups rendezvous inside run (bounded 10 s); a failed rendezvous is a violation only if the control - w plain closures spawned with pool.scope on the same (or an equivalently configured default) pool - completes, otherwise inconclusive. "
      "Variations: default pool with a narrow batch inside the wide stage, one chain group of two systems among the w groups, a warm-up history of 200..3000 trivial dispatches, two back-to-back async requests, dispatch called from a worker of a different 1..2-thread pool. A failed rendezvous is re-run on a fresh dispatcher (whole scenario) before the control decides. "
+     "Configurations: every other shard runs with RAYON_NUM_THREADS=3 (the pool a dispatcher makes for itself is then that small; default-pool contexts are capped at that width); a third of the user-pool / batch / async cases attach the pool *after* all registrations (batches included), the batch cases then with a stage wider than any default pool. "
      "distinct non-trivial = (w, pool, context, prefix) with w >= 2 and every rendezvous completed.",
      quick=[shards(nshards=4, max_par=4)], thorough=[shards(nshards=8, max_par=4)])
 
@@ -125,6 +133,7 @@ prop("C14", "c14",
      "cases = generated plans x up to 6 panic positions each (any system in any group/stage, thread-local systems, systems inside batches, batch controllers, panics in the middle of fetching, two victims at once) x dispatch / dispatch_par / dispatch_seq / dispatch_seq+thread_local x sibling phase (siblings of the victim's stage parked before fetch, parked inside run, or already finished at the instant of the panic, by gates). "
      "Oracles: catch_unwind returns Err with the payload token of a system whose injected panic really fired; transitive dependents of it (and of the batches it propagated through) have run count 0; no count above once; every resource cell probes as free; the next dispatch runs every system exactly once in a clean order. "
      "A third of the victims inside a hand-written batch controller meet a controller that catches the inner panic and dispatches its inner dispatcher again in the same frame: that dispatch must run every inner system exactly once. "
+     "Injected panics carry a message (String) or, in three of eight cases, a value that is not a message (a struct, an integer) - the payload that reaches the caller must still be the victim's. On every shard one dispatcher that went through a caught panic is then used for 2^16+2..40 further dispatches with the count model checked after every call. "
      "distinct non-trivial = (plan, victim, phase, mode) where the victim fired and has a sibling in its stage or a dependent.",
      level="fault_enumeration",
      thorough=[shards(name="main"), miri(rayon=True, name="miri", args=["--tiny"], scale=0.0005)])
@@ -133,6 +142,7 @@ prop("C15", "c15",
      "cases = generated plans built with build_async on pools of 1..16 x random call histories (3..15 ops over dispatch / dispatch with one system parked inside run / running / wait / wait_without_tl / world / world_mut / setup). While a system is provably parked inside run, running() is polled 1..20 times and must be true, then a blocking accessor is called while a helper opens the latch only after the caller announced it is about to block. "
      "Histories also contain while running() {} polling, the deprecated res()/mut_res(); every 40th case is a plan of 257..330 stages. "
      "After every accessor returns: active systems == 0 and completions == dispatches x systems; running()==false only with all completions; dispatch #n returns only when #n-1 is complete; whole-history event log: every system once per epoch, epochs never overtake; thread-local systems only between wait() marks, on the calling thread, once per wait. "
+     "Long histories (4 per shard): running() is polled until false once, then 254..256 / 65534..65536 frames of dispatch + wait / wait_without_tl / world, then one more dispatch in which a system is parked inside run while running() is polled 3..30 times (must be true), then wait. "
      "distinct non-trivial = (plan, history) with >=1 poll of running() on a parked system and >=2 dispatches.",
      thorough=[shards(name="main"), san("tsan", name="tsan", scale=0.25)])
 
@@ -140,12 +150,14 @@ prop("C16", "c16",
      "cases = random trees (depth <=5, fan-out <=6) assembled at run time from the real Par/Seq nodes through a boxing adapter, leaves = self-logging systems over 26 writable + 6 read-only slots, a third of the trees poisoned with one conflicting par-sibling access; conflict-free trees are set up and dispatched 2-3 times on pools 1..16 from outside and from inside the pool (also through RunNow). "
      "Every 8th tree ranges over 128 resources with leaves of up to 12 writes (par nodes mentioning > 64 distinct resources); half of the leaves use an accessor type whose try_new() is Some while accessor() is overridden; setup is called 1..3 times (fresh world / resources removed in between); every 50th case checks that k par leaves rendezvous when dispatch is called from outside, from inside the pool, or from a worker of a different 1-thread pool. "
      "Oracles: Par::with panics (debug assertions are on in this build) <=> the new child conflicts with the children already there; root reads()/writes() == multiset of the leaves'; setup reaches every leaf once; every leaf exactly once per dispatch; within a seq node all leaves of child i end before any leaf of child i+1 enters; conflicting leaves never overlap; every 100th case: k leaves under one par node rendezvous inside run (with a plain-rayon control). "
+     "A third of the trees turn some leaves into zero-sized systems (unit structs over library system data; reporting through statics). Every 25th case is one of nine *statically typed* trees built with the par!/seq! macros over concrete leaf types, zero-sized ones at every position (the run-time trees box every child); every 25th case lets a leaf change its run-time access set after it was added (as a script system does in setup): reads()/writes() of the node follow, a later Par::with is judged against what the children declare now. "
      "distinct non-trivial = tree-shape hash with depth >=2 and both node kinds (or a completed par rendezvous).",
      thorough=[shards(name="main"), miri(rayon=True, name="miri", args=["--tiny"], scale=0.0004)])
 
 prop("C08", "c08",
      "cases = (a) single-thread histories of 60 operations over 3..18 hot resources (some absent): try_fetch(_mut)_by_id on any dynamic id, fetch / fetch_mut / try_fetch / try_fetch_mut, system_data of 14 library SystemData types (first failing member decides; earlier members unwind), Fetch::clone, MetaTable iter (several items kept alive) and iter_mut, drop of a random live guard, scoped unwinding through freshly taken guards, writes through live exclusive guards; after every step the outcome (guard / None / panic kind) must equal the borrow-state reference model, every live guard must still read its model value and the borrow state of all 32 cells (probed via try_fetch_internal) must equal the model. "
      "(b) every 100th case: 2..16 threads hammer 2..4 resources under catch_unwind; a per-slot shadow counter is changed strictly inside each guard's lifetime (exclusive: CAS 0->-1, shared: add must see >=0), writers write a, spin, b, readers check a==b. "
+     "(c) fetches made from a destructor that runs while the thread is unwinding from an unrelated panic (the destructor catches the outcome): same rules. (d) every 100th case, a refusal-history check: a holder keeps taking the shared guard, drops it and at once asks for the exclusive one while 1..3 threads keep asking for the exclusive guard; every attempt is stamped on a logical clock before the call, after the return and after the drop; offline, every refusal must be explained by a conflicting guard *granted* to another thread whose possible lifetime [call, drop end] meets the refused call - a failed attempt must leave no trace - and no two conflicting guards may be surely alive (return .. drop start) at one instant. "
      "distinct non-trivial = history hash (or stress run) with >=1 refused and >=1 granted borrow of each kind.",
      crash_is_violation=True,
      thorough=[shards(name="main"), san("tsan", name="tsan", args=["--stress-only"], scale=0.001), miri(name="miri", args=["--small"], scale=0.0002)])
